@@ -19,6 +19,7 @@ THEOREMS = [_P + n for n in [
     "no_write_after_close", "closed_step", "closed_stays_closed", "read_after_close_only_buffered",
     "satisfiable_read_gets_data", "pending_read_at_close",
     "all_settled_once", "none_pending_after_close", "settled_exactly_once_at_close",
+    "tryInline_gets_buffered", "later_read_gets_buffered",
 ]]
 TRUSTED = base.TRUSTED + [
     "asyncio.Future set-once semantics and FIFO call_soon ordering (abstraction: a settle event per future id)",
@@ -29,7 +30,9 @@ ASSUMPTIONS = base.ASSUMPTIONS + [
     "at most one connect() per stream, issued first (a second connect() overwrites _connect_future: API misuse, excluded)",
 ]
 RULE = ("op sequences <= 5 over a 12-op alphabet (complete for <= 2 in quick, <= 3 in thorough) with each of 7 close causes "
-        "inserted at every position, plus random sequences with writes/connect; non-trivial = the stream closed while at "
+        "inserted at every position, plus random sequences with writes/connect, plus the after-close grid (4 ways bytes get "
+        "buffered unconsumed x 7 pending reads x 8 causes x 9 sequences of later reads: complete in thorough, 30 % sample in "
+        "quick); non-trivial = the stream closed while at "
         "least one future was pending")
 EXHAUSTIVE = {"quick": False, "thorough": False}
 CLAUSES = {
@@ -42,7 +45,10 @@ CLAUSES = {
     "everything else fails with StreamClosedError carrying the real error": "others_get_closed_error + pending_read_at_close + close_error",
     "the close callback runs exactly once after that": "callback_once_after + close_again",
     "no later write or connect succeeds": "no_write_after_close + closed_stays_closed (tie only: connect after close is not part of BaseIOStream)",
-    "later reads succeed only from data that was already buffered": "read_after_close_only_buffered + closed_step",
+    "later reads succeed only from data that was already buffered":
+        "read_after_close_only_buffered + closed_step (only from the buffer) + later_read_gets_buffered / tryInline_gets_buffered "
+        "(and they do succeed from it, for every stream.error: a read the buffered bytes satisfy is completed at once with "
+        "Spec.expected; oracle clause (6) = Spec.laterReads on the buffer snapshot taken at entry of close())",
 }
 PARALLEL = False
 CASE_TIMEOUT = 120
@@ -75,7 +81,50 @@ def _enum(maxlen, rng=None, sample=None):
                            "enum": cname}
 
 
+# ---- reads after the close, on data that was buffered before it (added after the missed seeded change C13-1) ----------
+# how unconsumed bytes get into the read buffer x the read pending at the close x the cause x the reads issued afterwards
+AC_DATA = b"ab\n12x\r\n\r\ncd"
+AC_SETUP = {
+    "consumed-part": [["feed", AC_DATA.hex()], ["rb", 2, False]],            # 10 bytes stay buffered, stream idle
+    "pending-then-arrival": [["rb", 2, False], ["feed", AC_DATA.hex()]],     # the arrival completes the read, rest buffered
+    "in-transport": [["feed", AC_DATA.hex()]],                               # nobody listens: read together with the cause
+    "callback+consumed": [["setcb"], ["feed", AC_DATA.hex()], ["ri", 3, False]],
+}
+AC_PENDING = [None, ["rb", 100, False], ["ru", b"zz".hex(), None], ["ru", b"\r\n\r\n".hex(), None], ["ri", 100, False],
+              ["ruc"], ["rr", 1, None]]
+AC_CAUSES = dict(CAUSES, unsat=[["ru", b"zz".hex(), 3]])
+AC_LATER = [
+    [["rb", 2, False]],
+    [["rb", 3, True], ["ruc"]],
+    [["ri", 2, False], ["ru", b"\n".hex(), None]],
+    [["ru", b"\r\n\r\n".hex(), None], ["rb", 64, True]],
+    [["rr", 1, None], ["ri", 64, True]],
+    [["rb", 100, False], ["rb", 1, False]],
+    [["ruc"], ["ruc"]],
+    [["ru", b"zz".hex(), 3], ["rb", 2, False]],
+    [["rr", 0, None], ["ru", b"d".hex(), 1]],
+]
+
+
+def after_close_grid(rng=None, sample=None):
+    for sname, setup in AC_SETUP.items():
+        for pend in AC_PENDING:
+            for cname, cops in AC_CAUSES.items():
+                for later in AC_LATER:
+                    if sample is not None and rng.random() > sample:
+                        continue
+                    ops = [list(o) for o in setup] + ([list(pend)] if pend else []) + [list(o) for o in cops] + \
+                          [list(o) for o in later]
+                    yield {"cfg": [None, None], "ops": ops, "enum": "after:" + cname}
+
+
 def gen_cases(rng, tier):
+    if tier == "quick":
+        yield from after_close_grid(rng, 0.3)
+    elif tier == "thorough":
+        yield from after_close_grid()
+    else:
+        yield from after_close_grid(rng, 0.15)
     if tier == "quick":
         yield from _enum(2)
         yield from _enum(4, rng, 0.0012)
@@ -125,26 +174,59 @@ def pending_read_at_close(case, impl, c):
     return cands, req
 
 
-def spec_requests(case, impl):
-    if "outs" not in impl:
-        return []
-    c = closing_op(impl)
-    if c is None or not impl["outs"][c]["snap"][1]:
-        return []
-    cands, req = pending_read_at_close(case, impl, c)
-    if len(cands) != 1:
-        return []
-    q = req[cands[0]]
-    return [line("C13", "expect", wire_op(q), bytes.fromhex(impl["outs"][c]["snap"][0]))]
-
-
 def _is_fail(oc):
     return isinstance(oc, list) and oc and oc[0] in ("closed", "exc")
+
+
+def buffered_after_close(case, impl, c):
+    """the bytes that are in the read buffer once the close has completed, from the PROPERTY's point of view: the
+    buffer at entry of the first close() (`snap`) minus what the read pending at that moment was completed with.
+    (Not the implementation's own buffer after the close: a close that throws buffered data away must not hide it.)"""
+    buf = bytes.fromhex(impl["outs"][c]["snap"][0])
+    if impl["outs"][c]["snap"][1]:
+        cands, _ = pending_read_at_close(case, impl, c)
+        settled_c = dict((f, o) for f, o in impl["outs"][c]["settled"])
+        if len(cands) == 1 and cands[0] in settled_c and not _is_fail(settled_c[cands[0]]):
+            data = base._result_bytes(settled_c[cands[0]])
+            if data is not None and buf.startswith(data):
+                buf = buf[len(data):]
+    return buf
+
+
+def later_reads(case, impl, c):
+    """indices of the read ops issued after the closing op"""
+    return [i for i in range(c + 1, len(case["ops"])) if case["ops"][i][0] in READ_KINDS]
+
+
+def _plan(case, impl):
+    """(expect line | None, later line | None)"""
+    if "outs" not in impl:
+        return None, None
+    c = closing_op(impl)
+    if c is None:
+        return None, None
+    expect = None
+    if impl["outs"][c]["snap"][1]:
+        cands, req = pending_read_at_close(case, impl, c)
+        if len(cands) == 1:
+            q = req[cands[0]]
+            expect = line("C13", "expect", wire_op(q), bytes.fromhex(impl["outs"][c]["snap"][0]))
+    later = later_reads(case, impl, c)
+    lat = line("C13", "later", [wire_op(case["ops"][i]) for i in later], buffered_after_close(case, impl, c)) if later else None
+    return expect, lat
+
+
+def spec_requests(case, impl):
+    return [l for l in _plan(case, impl) if l is not None]
 
 
 def spec_violation(case, impl, replies):
     outs, ops = impl["outs"], case["ops"]
     kinds = impl["kinds"]
+    plan = _plan(case, impl)
+    replies = list(replies)
+    expect_reply = replies.pop(0) if plan[0] is not None else None
+    later_reply = replies.pop(0) if plan[1] is not None else None
     for i, o in enumerate(outs):
         r = o["ret"]
         if isinstance(r, list) and (r[0] == "drain-raised" or (r[0] == "raised" and str(r[1]).startswith("Uncaught"))):
@@ -177,8 +259,8 @@ def spec_violation(case, impl, replies):
         cands, req = pending_read_at_close(case, impl, c)
         if len(cands) != 1:
             return "op %d: cannot identify the read pending at close (%r)" % (c, cands)
-        st, vals = parse_reply(replies[0])
-        assert st == "ok", replies[0]
+        st, vals = parse_reply(expect_reply)
+        assert st == "ok", expect_reply
         want = norm(vals[0])
         got = settled_c[cands[0]]
         if want is None:
@@ -235,6 +317,27 @@ def spec_violation(case, impl, replies):
                 later += base._result_bytes(o)
     if len(later) > buflen(at_close_buf) or (isinstance(at_close_buf, str) and not bytes.fromhex(at_close_buf).startswith(later)):
         return "reads after close returned %r, buffered at close: %r" % (later.hex(), at_close_buf)
+    # (6) ... and they DO succeed from it: a later read that the bytes buffered at the close (minus what earlier reads took)
+    # can satisfy is completed with exactly those bytes, whatever the cause of the close was (Spec.laterReads).  The
+    # comparison stops at the first read call that raises on the closed stream (it leaves its future registered, so
+    # every later call raises too: that is how the code is, and the statement does not speak about it).
+    if later_reply is not None:
+        st, vals = parse_reply(later_reply)
+        assert st == "ok", later_reply
+        wants = norm(vals[0])
+        for i, want in zip(later_reads(case, impl, c), wants):
+            r = outs[i]["ret"]
+            got = None
+            if isinstance(r, list) and r[0] == "fut":
+                got = dict((f, o) for f, o in outs[i]["settled"]).get(r[1])
+            if want is None:
+                if got is None or not _is_fail(got):
+                    break       # raised (future abandoned), or data the buffer cannot give: clause (5) judges that
+                continue
+            if got != want:
+                return ("op %d: %s after the %s close: the bytes buffered at the close satisfy it (%r) but it %s" %
+                        (i, ops[i][0], K, want, "raised %s" % (r[1:],) if isinstance(r, list) and r[0] == "raised" else
+                         "got %r" % (got,)))
     return None
 
 
@@ -276,7 +379,8 @@ def signature(case, impl, why):
                      ("real cause", "close/wrong-cause"), ("stream.error", "close/wrong-cause"),
                      ("close callback", "close/callback"), ("on a closed stream returned", "after-close/write-accepted"),
                      ("succeeded after close", "after-close/non-read-succeeded"),
-                     ("reads after close", "after-close/read-not-from-buffer"), ("settled with", "future/bad-result"),
+                     ("reads after close", "after-close/read-not-from-buffer"),
+                     ("bytes buffered at the close satisfy", "after-close/buffered-data-lost"), ("settled with", "future/bad-result"),
                      ("times", "future/settled-twice"), ("unexpected exception", "uncaught")]:
         if key in w:
             return sig
